@@ -309,7 +309,21 @@ type callResult struct {
 var callTimeout = 20 * time.Second
 
 // guarded runs f under recover and a watchdog.
+// A call that does not return keeps its goroutine spinning for the rest of the run. After maxHangs reported
+// hangs the stream ends (output flushed, statistics written): further reports add nothing, and the spinning
+// goroutines would eat the machine.
+var (
+	hangCount int
+	finishRun func()
+)
+
+const maxHangs = 6
+
 func guarded(f func() callResult) callResult {
+	if hangCount >= maxHangs && finishRun != nil {
+		finishRun()
+		os.Exit(0)
+	}
 	ch := make(chan callResult, 1)
 	go func() {
 		defer func() {
@@ -323,6 +337,7 @@ func guarded(f func() callResult) callResult {
 	case r := <-ch:
 		return r
 	case <-time.After(callTimeout):
+		hangCount++
 		return callResult{hang: true}
 	}
 }
@@ -537,6 +552,14 @@ func main() {
 	w := bufio.NewWriterSize(os.Stdout, 1<<20)
 	defer w.Flush()
 	rn := &runner{w: w, st: newStats(*stream, *seed), r: rand.New(rand.NewSource(*seed)), n: *n}
+	finishRun = func() {
+		w.Flush()
+		if *statsPath != "" {
+			rn.st.Rule = "cases drawn from one PRNG (seed) by structure-directed generators; a case is non-trivial when the call rounded, clamped, went subnormal, overflowed, returned a special value or an error; distinct = distinct input lines among those"
+			b, _ := json.MarshalIndent(rn.st, "", " ")
+			os.WriteFile(*statsPath, b, 0o644)
+		}
+	}
 	if *corpus != "" {
 		for _, p := range strings.Split(*corpus, ",") {
 			if err := rn.replayFile(p); err != nil {
@@ -588,12 +611,7 @@ func main() {
 		}
 	}
 	rn.snapCheck(true)
-	w.Flush()
-	if *statsPath != "" {
-		rn.st.Rule = "cases drawn from one PRNG (seed) by structure-directed generators; a case is non-trivial when the call rounded, clamped, went subnormal, overflowed, returned a special value or an error; distinct = distinct input lines among those"
-		b, _ := json.MarshalIndent(rn.st, "", " ")
-		os.WriteFile(*statsPath, b, 0o644)
-	}
+	finishRun()
 }
 
 func (rn *runner) streamArith(g *gen, opList []string, extreme bool) {
